@@ -551,6 +551,113 @@ func VH18c_repeat() {
 	sock.Close()
 }
 
+// VH18g_lattice: every subset of {best effort, fail-no-peers, send deadline} set together on a socket or context,
+// against three situations: no peer; a stalled peer with short queues; a peer that reads. The rules of the three
+// options combine without surprises: with best effort a Send never waits and never reports a timeout; with
+// fail-no-peers and no peer it fails at once with the no-peers error (or, with best effort as well, may report
+// success - it never waits); a timeout is reported only if a deadline is set, not before it has run, and exactly at
+// it; with none of the three a Send that cannot complete keeps waiting; with a reading peer every Send succeeds.
+func VH18g_lattice() {
+	protos := []string{"pair", "xpair", "pair1", "xpair1", "push", "xpush", "req", "xreq", "rep", "xrep", "respondent", "xrespondent", "pub", "bus", "star", "surveyor"}
+	proto := protos[verif.Choice("proto", len(protos))]
+	lab := "C18/" + proto + "/lattice"
+	sock := vp.New(proto)
+	var ep endpoint = sock
+	if verif.Choice("api", 2) == 1 {
+		c, cerr := sock.OpenContext()
+		if cerr != nil {
+			verif.Assume(false)
+		}
+		ep = c
+		lab += "/context"
+	}
+	be := verif.Choice("best-effort", 2) == 1
+	fnp := verif.Choice("fail-no-peers", 2) == 1
+	dl := verif.Choice("deadline", 2) == 1
+	D := time.Second
+	if be && ep.SetOption(mangos.OptionBestEffort, true) != nil {
+		verif.Assume(false)
+	}
+	if fnp && ep.SetOption(mangos.OptionFailNoPeers, true) != nil {
+		verif.Assume(false)
+	}
+	if dl && ep.SetOption(mangos.OptionSendDeadline, D) != nil {
+		verif.Assume(false)
+	}
+	sock.SetOption(mangos.OptionWriteQLen, 1)
+	situation := verif.Choice("situation", 3) // 0 no peer, 1 stalled peer, 2 reading peer
+	var peer *vt.Pipe
+	if situation > 0 {
+		side := vt.Listen(sock, "a")
+		peer = side.Peer("p")
+		learnRoute(proto, sock, peer)
+		if situation == 1 {
+			peer.SendMode = vt.SendBlock
+		}
+	}
+	answering := proto == "rep" || proto == "respondent"
+	if answering && peer == nil {
+		verif.Assume(false) // nothing to answer without a peer
+	}
+	waited := false
+	for i := 0; i < 6; i++ {
+		if answering {
+			peer.Deliver([]byte{0x80, 0, 0, byte(i + 1), 'q'})
+			verif.Quiesce()
+			if _, rerr := ep.RecvMsg(); rerr != nil {
+				break
+			}
+		}
+		m := newMsg(proto)
+		t0 := verif.Now()
+		var err error
+		g := verif.Go("send", func() { err = ep.SendMsg(m) })
+		verif.Quiesce()
+		if !g.Done() {
+			waited = true
+			verif.Assert(!be, lab+"/best-effort-send-waits")
+			verif.Assert(!(fnp && situation == 0), lab+"/send-waits-without-peers-although-fail-no-peers-is-set")
+			if dl {
+				verif.RunClockTo(t0 + D - 1)
+				verif.Assert(!(g.Done() && err == mangos.ErrSendTimeout), lab+"/send-timed-out-early")
+				verif.RunClockTo(t0 + D)
+				verif.Assert(g.Done(), lab+"/send-hangs-beyond-its-deadline")
+			} else {
+				for k := 0; k < 3; k++ {
+					verif.FireTimer()
+				}
+				verif.Assert(!g.Done() || err != mangos.ErrSendTimeout, lab+"/send-timed-out-without-a-deadline")
+				verif.Reach("lattice-waits")
+				break
+			}
+		}
+		if !g.Done() {
+			break
+		}
+		switch err {
+		case nil:
+		case mangos.ErrSendTimeout:
+			verif.Assert(dl && !be, lab+"/timeout-reported-without-a-deadline-or-with-best-effort")
+			verif.Assert(verif.Now() >= t0+D, lab+"/send-timed-out-early")
+		case mangos.ErrNoPeers:
+			verif.Assert(fnp && situation == 0, lab+"/no-peers-error-although-a-peer-is-connected-or-the-option-is-off")
+		default:
+			verif.Assert(err == mangos.ErrProtoState && (proto == "rep" || proto == "respondent"), lab+"/unexpected-send-error")
+		}
+		if situation == 2 {
+			verif.Assert(err == nil, lab+"/send-fails-although-the-peer-reads")
+		}
+		if err != nil {
+			break
+		}
+	}
+	if situation == 2 {
+		verif.Assert(!waited, lab+"/send-waits-although-the-peer-reads")
+	}
+	verif.Reach("lattice-checked")
+	sock.Close()
+}
+
 // VH18f_deadline_vs_arrival: the awaited message arrives at the very moment the receive deadline expires (both are
 // ready when the receiver wakes up: it may take either), R times in a row on the same socket or context. Whatever
 // each call returned - the message or the timeout - nothing is lost (a message not returned is still there for the
